@@ -92,6 +92,10 @@ def modVal (_P : List K) (_u : K) : List K := []
 /-- `inv(R, P) = div(R, one, P)`, `invin` -/
 def inv (thr : Nat) (P : List K) : List K := Givaro.Model.Poly.div thr [1] P
 
+/-- `isDivisor(P, Q)` (givpoly1dense.h): `Q | P`, decided as `isZero(Q) ? isZero(P) : isZero(mod(R, P, Q))` -/
+def isDivisor (thr : Nat) (P Q : List K) : Bool :=
+  if isZero Q then isZero P else isZero (Givaro.Model.Poly.mod thr P Q)
+
 /-! ### `random` / `nonzerorandom` (givpoly1misc.inl): the draws are C17's, the shape is determined here -/
 
 /-- `random(g, r, Degree d)`: `deginfty` gives the empty vector, else `d+1` coefficients, the leading one drawn first by
